@@ -36,6 +36,11 @@ def gen_tape(rng):
             if name and name not in (".",) and (name, ext) not in used and not name.startswith("."):
                 break
         used.add((name, ext))
+        if len(name) < 7 and rng.random() < 0.15:
+            name = " " * rng.choice([1, 2]) + name[:6]      # blanks in front of a name are not part of it (the reader strips both ends)
+            if (name.strip(), ext) in used and name.strip() != name[:0]:
+                pass
+            used.add((name.strip(), ext))
         kind = rng.choice([0, 0, 1, 2, 2, 3, 200])
         mode = rng.choice([0, 0xFFFF, 0x1234, 255])
         content = b""
